@@ -196,7 +196,7 @@ def build_scanner(flex, flexsrc, workdir, name, rs, cfg, lex_seed=0, flex_timeou
 
 
 def case_text(rs, build, cfg, srcs, main, acts=None, wraps=None, sched=None, bufsize=16384,
-              maxevents=20000, eofact=None, eacts=None, readerr=None, eintr=None, allocfail=None, tfiles=None,
+              maxevents=20000, eofact=None, eacts=None, readerr=None, readerr1=None, eintr=None, allocfail=None, tfiles=None,
               logreads=False):
     lines = rs.case_lines(build.get('var_rules', ())) + build['table_lines']
     for i, s in enumerate(srcs):
@@ -231,6 +231,8 @@ def case_text(rs, build, cfg, srcs, main, acts=None, wraps=None, sched=None, buf
         lines.append('tfile %d %s' % (i, pth))
     if readerr:
         lines.append('readerr ' + ' '.join(str(x) for x in readerr))
+    if readerr1:
+        lines.append('readerr1 ' + ' '.join(str(x) for x in readerr1))
     if eintr:
         lines.append('eintr ' + ' '.join(str(x) for x in eintr))
     if allocfail is not None:
